@@ -44,7 +44,7 @@ TDup == /\ Ev("dup") /\ pc = "loaded"
                d == DupHeap(hp, ro, Deviations)
            IN /\ hp' = d.hp /\ rc' = d.ref
               /\ e.canC = Canon(d.hp, d.ref)
-              /\ e.copyeq = (Canon(d.hp, d.ref) = g)
+              /\ e.copyeq = (NoAl(Canon(d.hp, d.ref)) = NoAl(g))
               /\ e.shared = 0 /\ e.attshared = 0 /\ e.atteq /\ e.again
               /\ e.hasheq = 255 /\ e.equal
         /\ pc' = "mut" /\ l' = l + 1 /\ UNCHANGED <<mode, g, deco, stack, ro, script, unch, obs>>
